@@ -27,6 +27,20 @@ CLAIMED.update({
              note='Trusted: Coq kernel + vm_compute; translator gen_rng.py; the MT19937 reference as written in Rng/MTSpec.v; rustc u32->f32 conversion and f32 multiply being IEEE round-to-nearest-even (validated on boundary samples). The three min/max mappings are exploration-level.',
              ref='DESIGN.md section 7 C19'),
 })
+CLAIMED.update({
+ 'C01': dict(technique='Coq model of the emitter + executable OpenSCAD lexer/parser in Coq run as oracle on the implementation text; exact text equality model vs implementation; lexer lemmas proved (full parse-of-emit theorem in progress)',
+             text='The emitter is mirrored line by line in coq/Text/Emit.v and compared character for character with the implementation on enumerated and random trees (every variant, option combination, empty lists, zero children, sequences). A fold-based lexer and a recursive-descent parser for the module-instantiation grammar, written in Coq, are evaluated on the implementation text and must return exactly the statements of the tree (same operation at every node, same children in order, balanced braces, no panic). Proved so far: lexing composes over concatenation and string literals read back (C02). The for-all-trees theorem parse(emit t) = stmt_of t is not yet machine-checked; until it is, the for-all claim rests on the sampled oracle.',
+             note='Trusted: OpenSCAD grammar/lexer as written in Text/Lex.v, Text/Parse.v; hand model Emit.v + exact differential tie; Rust number formatting checked per sample.',
+             ref='DESIGN.md section 7 C01'),
+ 'C02': dict(technique='Coq binder (OpenSCAD positional/named binding, built-in signatures, colour table) and exact decimal->binary64 reader evaluated on the implementation text; theorem: every string reads back under the emitted escaping',
+             text='For every sampled tree Coq lexes and parses the implementation text, binds the arguments of every statement by OpenSCAD rules (coq/Text/Bind.v) and compares with the parameters the node stands for (values bit-identical after exact decimal->binary64 conversion in Z arithmetic, booleans, keywords, colour names in the CSS table, vectors, optional settings present iff set, scalar/vector forms). C02_string_readback is proved for all strings: the escaped literal lexes back to the same code points. Every ScadColor variant is enumerated each run. Known finding: ScadColor::Browns.',
+             note='Trusted: OpenSCAD binding rules, signatures and colour list in Text/Bind.v (cannot be validated offline); Dec64.v as the model of strtod; hand emitter model + exact differential tie. u64 values above 2^53 are compared after rounding to binary64.',
+             ref='DESIGN.md section 7 C02'),
+ 'C13': dict(technique='scad_file! arms and Scad::save regenerated from source into Coq (translator insists on the create/headers/loop/flush/join shape); reflection theorem over the arm list; real-file differential run with pre-existing content',
+             text='coq/Props/C13.v (axiom-free): every regenerated arm writes exactly one `$k=value;` line per setting of its pattern in pattern order and nothing else; the arms are exactly the five documented forms; closed form of the content for each form, for all values and bodies. Tie: the harness runs save and all five forms on real files (pre-existing content none/empty/shorter/longer, several stack sizes, deep chains), reads the bytes back after the call returns and Coq compares them with the model and with format!() output, and parses the file as assignments followed by the children.',
+             note='Trusted: translator gen_scadfile.py; std::fs/std::thread/stack size exercised not modelled; emission model from C01.',
+             ref='DESIGN.md section 7 C13'),
+})
 NOT_YET = {}
 def main():
     props = [json.loads(l)['id'] for l in open('properties.jsonl')]
